@@ -176,10 +176,27 @@ MODES = [
 ]
 
 
-def digest(path):
+# Operations whose answer reports the HARNESS's own bookkeeping (which API routes the cases
+# executed so far in this process have reached), not a result of the library: their answers depend
+# on the order of the cases by construction and are not compared between execution modes.
+BOOKKEEPING_OPS = ("api-report", "api_stats", "static_ops")
+
+
+def comparable_lines(path, ops):
+    lines = open(path, encoding="utf-8", errors="replace").read().split("\n")
+    for i, op in enumerate(ops):
+        if i < len(lines) and op.split(" ", 1)[0] in BOOKKEEPING_OPS:
+            lines[i] = "(harness bookkeeping, not compared)"
+    return lines
+
+
+def digest(path, ops=None):
     h = hashlib.sha256()
-    with open(path, "rb") as f:
-        h.update(f.read())
+    if ops is None:
+        with open(path, "rb") as f:
+            h.update(f.read())
+    else:
+        h.update("\n".join(comparable_lines(path, ops)).encode("utf-8", errors="replace"))
     return h.hexdigest()
 
 
@@ -215,9 +232,9 @@ def run(ctx):
         distinct_ops += len(set(ops))
         programs += sum(1 for l in ops if l.startswith("@"))
         base_name, base_path, base_rc = outs[0]
-        d0 = digest(base_path)
+        d0 = digest(base_path, ops)
         per_prop[pid] = {"operations": len(ops), "digest": d0[:16], "modes": len(outs)}
-        base_lines = open(base_path, encoding="utf-8", errors="replace").read().split("\n")
+        base_lines = comparable_lines(base_path, ops)
         float_lines += sum(1 for l in base_lines if re.search(r"\b[0-9a-f]{16}\b|\bbits\b|to_bits|f64", l))
         if pid == "C18":
             # the text of Display for integer tensors is tied to the Lean model of format_view
@@ -249,9 +266,9 @@ def run(ctx):
                     "explanation": what, "replay_argv": ["python3", "props/c18_extra.py", "replay"],
                 })
         for name, path, rc in outs[1:]:
-            if digest(path) == d0 and rc == base_rc:
+            if digest(path, ops) == d0 and rc == base_rc:
                 continue
-            other = open(path, encoding="utf-8", errors="replace").read().split("\n")
+            other = comparable_lines(path, ops)
             k = next((i for i in range(min(len(base_lines), len(other))) if base_lines[i] != other[i]),
                      min(len(base_lines), len(other)))
             k = min(k, len(ops) - 1)
